@@ -524,7 +524,7 @@ def c20(ctx):
     from . import oracle
     start(ctx)
     rng = random.Random(ctx.seed)
-    lines = gen.frac_lines(rng, tiers(ctx, 4000, 60000))
+    lines = corpus_lines("C20", {"frac"}) + gen.frac_lines(rng, tiers(ctx, 4000, 60000))
     small = [(3, 3), (3, 4), (4, 3)]
     lines += ["frac %s %d %s" % (Sem(E, P), n, a) for (E, P) in small for n in range(0, 7) for a in gen.all_values(Sem(E, P))]
     impl, _ = ctx.stream("as-fraction", lines, nontrivial=lambda t: t == "n", chunk_timeout=900)
